@@ -63,7 +63,8 @@ def _has_key(ex, state, d, k):
 def _both_headers(spec):
     """the dispatch loop is recognised by its header; both the snapshot form and the live-list form get the invariant
     (the live-list form cannot satisfy it: a self-unsubscribing handler shifts the remaining handlers)"""
-    return {"iter:list(self._subscriptions[msg.subscription])": spec, "iter:self._subscriptions[msg.subscription]": spec}
+    return {"iter:list(self._subscriptions[msg.subscription])": spec, "iter:self._subscriptions[msg.subscription]": spec,
+            "target:subscription": spec}
 
 
 def build(reg):
